@@ -153,3 +153,210 @@ Proof. intros W. apply mon_sound. intros h0 s e s' Hr Hs. eapply chk_nostart_hol
 
 Theorem chk_exit_monitor lvl c h : wf c = true -> accept lvl c h = true -> mon_ok chk_exit c h = true.
 Proof. intros W. apply mon_sound. intros h0 s e s' Hr Hs. eapply chk_exit_holds; eauto. Qed.
+
+(* ------------------------------------------------------------------ clean exit, at any depth (jobs part of C11) *)
+
+(* x lies strictly below scheduler n in the tree *)
+Fixpoint below_fuel (fuel : nat) (c : cfg) (n x : nat) : bool :=
+  match fuel with
+  | 0 => false
+  | S f => negb (Nat.eqb x 0) && (Nat.eqb (parent c x) n || below_fuel f c n (parent c x))
+  end.
+Definition below (c : cfg) (n x : nat) : bool := below_fuel (S x) c n x.
+
+(* a scheduler whose task is finished, or that never began, has no live job below it *)
+Definition settled (c : cfg) (s : state) (n : nat) : Prop :=
+  ph (Rn s n) = POver \/ ph (Rn s n) = PIdle.
+
+Lemma settled_members c s n x : wf c = true -> InvD c s -> settled c s n -> In x (members c n) ->
+  live (st (Jb s x)) = false /\ (j_sched (jc c x) = true -> settled c s x).
+Proof.
+  intros W [[I1 I3 I4 I5 I6] I7] Hset Hm.
+  assert (Hx0 : x <> 0) by (apply In_members in Hm; tauto).
+  assert (Hnl : live (st (Jb s x)) = false).
+  { destruct Hset as [Ho|Hi].
+    - apply (quiet_no_live c s n x I7); [right; exact Ho|exact Hm].
+    - rewrite (i_idle c s I1 n x Hm Hi). reflexivity. }
+  split; [exact Hnl|]. intros Hsch. unfold settled.
+  destruct (ph (Rn s x)) as [| |w|w| |] eqn:Eph; auto; exfalso.
+  - rewrite (k_act c s I3 x Hx0 Hsch) in Hnl; [discriminate| |]; rewrite Eph; discriminate.
+  - rewrite (k_act c s I3 x Hx0 Hsch) in Hnl; [discriminate| |]; rewrite Eph; discriminate.
+  - rewrite (k_act c s I3 x Hx0 Hsch) in Hnl; [discriminate| |]; rewrite Eph; discriminate.
+  - rewrite (k_act c s I3 x Hx0 Hsch) in Hnl; [discriminate| |]; rewrite Eph; discriminate.
+Qed.
+
+Lemma below_fuel_quiet c s : wf c = true -> InvD c s ->
+  forall fuel n x, settled c s n -> x < njobs c ->
+    below_fuel fuel c n x = true -> live (st (Jb s x)) = false /\ (j_sched (jc c x) = true -> settled c s x).
+Proof.
+  intros W ID. induction fuel as [|f IH]; intros n x Hset Hx Hb; [discriminate|].
+  cbn [below_fuel] in Hb. apply andb_true_iff in Hb. destruct Hb as [Hx0 Hb].
+  apply negb_true_iff, Nat.eqb_neq in Hx0.
+  apply orb_true_iff in Hb. destruct Hb as [Hp|Hb].
+  - apply Nat.eqb_eq in Hp. apply (settled_members c s n x W ID Hset). apply In_members. auto.
+  - destruct (wf_parent c x W Hx Hx0) as [Hlt Hps].
+    destruct (IH n (parent c x) Hset ltac:(lia) Hb) as [_ Hsp].
+    apply (settled_members c s (parent c x) x W ID (Hsp Hps)). apply In_members. auto.
+Qed.
+
+(* when the run of n is over, no job below n, at any depth, is waiting to start, running or
+   being cancelled -- and (chk_nostart) none will start later *)
+Theorem over_subtree_quiet lvl c h s n x : wf c = true -> Reach lvl c h s ->
+  ph (Rn s n) = POver -> x < njobs c -> below c n x = true ->
+  live (st (Jb s x)) = false.
+Proof.
+  intros W Hr Ho Hx Hb. pose proof (InvD_reach lvl c h s W Hr) as ID.
+  destruct (below_fuel_quiet c s W ID (S x) n x (or_introl Ho) Hx Hb) as [H _]. exact H.
+Qed.
+
+(* and a job that is not live stays so *)
+Theorem not_live_stable lvl c h0 s e s' x : wf c = true ->
+  Reach lvl c h0 s -> step lvl c s e = Some s' ->
+  finished (st (Jb s x)) = true -> Jb s' x = Jb s x.
+Proof. intros W Hr Hs Hf. eapply finished_stable; eauto. eapply Inv1_reach; eauto. Qed.
+
+(* the check: at every event that announces the end of the run of n, nothing below n is live in
+   the state after the event *)
+Definition chk_over (c : cfg) (s : state) (e : event) : bool :=
+  let s' := fst (reaction c s e) in
+  forallb (fun o => match o with
+                    | OEnd n _ => forallb (fun x => negb (below c n x) || negb (live (st (Jb s' x)))) (all_ids c)
+                    | _ => true end) (outs_of e).
+
+Theorem chk_over_holds lvl c h0 s e s' : wf c = true ->
+  Reach lvl c h0 s -> step lvl c s e = Some s' -> chk_over c s e = true.
+Proof.
+  intros W Hr Hs. destruct (step_inv _ _ _ _ _ Hs) as [Es' _].
+  pose proof (reach_snoc _ _ _ _ _ _ Hr Hs) as Hr'.
+  pose proof (InvD_reach lvl c _ s' W Hr') as ID'.
+  unfold chk_over. rewrite <- Es'. apply forallb_forall. intros o Ho.
+  destruct o as [| | | | |n v]; try reflexivity.
+  apply forallb_forall. intros x Hx. apply In_all_ids in Hx.
+  destruct (below c n x) eqn:Eb; [|reflexivity]. cbn [negb orb]. apply negb_true_iff.
+  (* the model also ends the run of n in this step *)
+  pose proof (accepted_core lvl c s e s' Hs (or_intror I)) as Hm.
+  pose proof (outs_match_end _ _ n v Hm Ho) as Hin.
+  destruct (end_in_reaction c s e n v Hin) as [Hov _]. rewrite <- Es' in Hov.
+  apply (over_subtree_quiet lvl c _ s' n x W Hr' Hov Hx Eb).
+Qed.
+
+Theorem chk_over_monitor lvl c h : wf c = true -> accept lvl c h = true -> mon_ok chk_over c h = true.
+Proof. intros W. apply mon_sound. intros h0 s e s' Hr Hs. eapply chk_over_holds; eauto. Qed.
+
+(* ------------------------------------------------------------------ nested scheduler as one job (C10) *)
+
+(* the end of a nested run is, for its parent, the end of one job: returned True/False, raised
+   (with the tag of the exception that bubbles up), or cancelled *)
+Lemma nested_end_status c n w r cu s : n <> 0 ->
+  Jb (fst (finish_run c n w r cu s)) n = mkJst (jstat_of_verdict (verdict_of c n w cu)) false None true.
+Proof.
+  intros Hn. rewrite Jb_finish_run. apply Nat.eqb_neq in Hn. rewrite Hn, Nat.eqb_refl. reflexivity.
+Qed.
+
+(* which exception object a critical nested scheduler re-raises *)
+Lemma raised_tag c n w cu t : verdict_of c n w cu = VRaise t ->
+  noncrit c n = false /\ ((w = WTimeout /\ t = tag_timeout n) \/ (w = WCritical /\ t = cu)).
+Proof.
+  unfold verdict_of, noncrit. destruct w; try discriminate;
+    destruct ((Nat.eqb n 0 && pure_root c) || negb (j_crit (jc c n))); try discriminate;
+    intros H; inversion H; auto.
+Qed.
+
+(* ... and a contained failure is read as False by the parent, which carries on: a job that
+   returned is never a critical failure *)
+Lemma contained_is_not_failure c s n : st (Jb s n) = DoneRet RVFalse -> crit_exc c s n = false.
+Proof. intros H. unfold crit_exc. rewrite H. apply andb_false_r. Qed.
+
+(* ------------------------------------------------------------------ timing, level 2: the clock only moves
+   when nothing is left to report *)
+Lemma tick_quiescent c s t s' : step 2 c s (ETick t) = Some s' -> quiescent c s = true.
+Proof.
+  intros Hs. apply step_inv in Hs. destruct Hs as [_ Hg].
+  cbn [forallb guards] in Hg. rewrite !andb_true_iff in Hg. destruct Hg as (_ & H & _).
+  rewrite holds_ge in H by lia. exact H.
+Qed.
+
+Lemma tick_means_nothing_unreported : forall c h s t, wf c = true -> Reach 2 c h s ->
+  step 2 c s (ETick t) <> None ->
+  forall n, j_sched (jc c n) = true -> n < njobs c -> ph (Rn s n) = PMain ->
+  forall x, In x (pend (Rn s n)) -> jfin s x = false.
+Proof.
+  intros c h s t W Hr Hne n Hsch Hn Hph x Hx.
+  destruct (step 2 c s (ETick t)) as [s'|] eqn:Es; [|contradiction].
+  pose proof (tick_quiescent c s t s' Es) as Hq. unfold quiescent in Hq.
+  apply andb_true_iff in Hq. destruct Hq as [_ Hq]. rewrite forallb_forall in Hq.
+  assert (Hin : In n (scheds c)).
+  { unfold scheds. apply filter_In. split; [apply In_all_ids; exact Hn|exact Hsch]. }
+  specialize (Hq n Hin). apply andb_true_iff in Hq. destruct Hq as [Hq _].
+  apply negb_true_iff in Hq. unfold run_enabled in Hq. rewrite Hph in Hq.
+  apply orb_false_iff in Hq. destruct Hq as [Hq _]. apply orb_false_iff in Hq. destruct Hq as [_ Hq].
+  destruct (jfin s x) eqn:E; [|reflexivity].
+  assert (existsb (jfin s) (pend (Rn s n)) = true) by (apply existsb_exists; exists x; auto). congruence.
+Qed.
+
+Lemma critical_wins c n d s : ph (Rn s n) = PMain ->
+  d <> [] -> existsb (crit_exc c s) d = true ->
+  let s' := fst (react_main c n d s) in
+  ph (Rn s' n) = PTidy WCritical \/ ph (Rn s' n) = PShut WCritical.
+Proof.
+  intros Hph Hne Hc. cbn zeta.
+  destruct (react_main_upd c n d s Hph) as (_ & _ & _ & [(w & Hw & _ & _ & _ & Hb)|(_ & _ & Hnc & _)]).
+  - destruct w.
+    + destruct Hb as (_ & Hx & _). congruence.
+    + destruct Hb as (Hx & _). contradiction.
+    + exact Hw.
+  - congruence.
+Qed.
+
+Lemma pending_doomed lvl c h s p x : wf c = true -> Reach lvl c h s ->
+  exiting (ph (Rn s p)) -> In x (pend (Rn s p)) ->
+  doomed c s x /\ is_done (st (Jb s x)) = false.
+Proof.
+  intros W Hr He Hi. destruct (InvD_reach lvl c h s W Hr) as [[I1 I3 I4 I5 I6] I7].
+  apply (d_pend c s I6 p x He Hi).
+Qed.
+
+Lemma timeout_path c n s : ph (Rn s n) = PMain ->
+  let s' := fst (react_main c n [] s) in
+  ph (Rn s' n) = PTidy WTimeout \/ ph (Rn s' n) = PShut WTimeout.
+Proof.
+  intros Hph. cbn zeta.
+  destruct (react_main_upd c n [] s Hph) as (_ & _ & _ & [(w & Hw & _ & _ & _ & Hb)|(_ & Hne & _)]).
+  - destruct w.
+    + destruct Hb as (Hx & _). contradiction.
+    + exact Hw.
+    + destruct Hb as (Hx & _). contradiction.
+  - contradiction.
+Qed.
+
+Lemma begin_sets_deadline c n s :
+  let s' := fst (react_begin c n s) in
+  members c n <> [] -> expi (Rn s' n) = optN_add (now s) (j_timeout (jc c n)) /\ tbeg (Rn s' n) = now s.
+Proof.
+  cbn zeta. intros Hne. unfold react_begin. destruct (members c n) eqn:Em; [contradiction|].
+  cbn [fst]. rewrite Rn_setR_same. cbn [expi tbeg].
+  destruct (Nat.eqb n 0); split; reflexivity.
+Qed.
+
+Lemma expiry_guard lvl c s n o s' : step lvl c s (EWake n KMain [] o) = Some s' ->
+  (exists x, expi (Rn s n) = Some x /\ (2 <= lvl -> (x <= now s)%N)).
+Proof.
+  intros Hs. apply step_inv in Hs. destruct Hs as [_ Hg].
+  cbn [guards] in Hg. rewrite forallb_app in Hg. apply andb_true_iff in Hg. destruct Hg as [Hg _].
+  cbn [forallb] in Hg. rewrite !andb_true_iff in Hg. destruct Hg as (_ & _ & _ & G13 & G14 & _).
+  rewrite holds_0 in G13. destruct (expi (Rn s n)) as [x|]; [|discriminate].
+  exists x. split; [reflexivity|]. intros Hl. rewrite holds_ge in G14 by exact Hl.
+  cbn in G14. apply N.leb_le. exact G14.
+Qed.
+
+Lemma quiet_pending_finished lvl c h s n x : wf c = true -> Reach lvl c h s ->
+  quiet_ph (ph (Rn s n)) -> In x (pend (Rn s n)) -> finished (st (Jb s x)) = true.
+Proof.
+  intros W Hr Hq Hi. destruct (InvD_reach lvl c h s W Hr) as [_ I7]. apply (l_fin c s I7 n x Hq Hi).
+Qed.
+
+Lemma starts_like_a_job lvl c h0 s e s' : wf c = true ->
+  Reach lvl c h0 s -> step lvl c s e = Some s' -> chk01 c s e = true /\ chk_nostart c s e = true.
+Proof.
+  intros W Hr Hs. split; [eapply C01_holds; eauto|eapply chk_nostart_holds; eauto].
+Qed.
